@@ -73,3 +73,4 @@ pub mod script;
 pub mod u_selector;
 pub mod u_builder;
 pub mod u_builder_gen;
+pub mod u_chan;
